@@ -108,6 +108,7 @@ func (r *run) genOp(g *hlib.Rand, id int) Op {
 		switch {
 		case !sp.recvd:
 			pendRecv = append(pendRecv, sp)
+		case sp.stuck && !g.Chance(1, 10): // its acknowledgement was rejected before (cannot be acknowledged)
 		case !sp.acked:
 			pendAck = append(pendAck, sp)
 		default:
@@ -138,13 +139,43 @@ func (r *run) genOp(g *hlib.Rand, id int) Op {
 		}
 		return op
 	}
-	// transfer
+	// transfer: mostly along a route that has a binding (forward: the destination knows the token; return: the
+	// token is bound to the destination) and where the user can send something; sometimes anything
+	avail := func(c, u, tok, dst int) *big.Int {
+		ch := r.w.Chains[c]
+		a := r.w.Balance(ch, r.tokens[c][tok], r.w.Users[u].Addr)
+		// bound tokens are burned in local units (amount * 10^scale) and limited by bindings.amount
+		if tok > 0 && dst < s.NChains && dst != c {
+			if b := r.w.Bindings(ch, r.tokens[c][tok], r.chainName(dst)); b.Bound {
+				if b.Amount.Cmp(a) < 0 {
+					a.Set(b.Amount)
+				}
+				a.Div(a, pow10(b.Scale))
+			}
+		}
+		return a
+	}
 	c := g.Intn(s.NChains)
 	u := g.Intn(s.NUsers)
-	ch := r.w.Chains[c]
 	dst := g.Intn(s.NChains)
 	if dst == c {
 		dst = (c + 1) % s.NChains
+	}
+	tok := g.Intn(s.NTok[c] + 1)
+	if g.Chance(4, 5) {
+		type route struct{ c, tok, dst int }
+		var routes []route
+		for _, b := range s.Binds {
+			routes = append(routes, route{b.Src, b.Ori, b.C}, route{b.C, b.Loc, b.Src})
+		}
+		for try := 0; try < 6 && len(routes) > 0; try++ {
+			rt := routes[g.Intn(len(routes))]
+			uu := g.Intn(s.NUsers)
+			if avail(rt.c, uu, rt.tok, rt.dst).Sign() > 0 {
+				c, u, tok, dst = rt.c, uu, rt.tok, rt.dst
+				break
+			}
+		}
 	}
 	switch g.Intn(40) {
 	case 0:
@@ -152,34 +183,23 @@ func (r *run) genOp(g *hlib.Rand, id int) Op {
 	case 1:
 		dst = c
 	}
-	dd := dst % s.NChains
-	tok := g.Intn(s.NTok[c] + 1)
-	bal := r.w.Balance(ch, r.tokens[c][tok], r.w.Users[u].Addr)
-	for try := 0; try < 3 && bal.Sign() == 0; try++ {
+	ch := r.w.Chains[c]
+	av := avail(c, u, tok, dst)
+	for try := 0; try < 3 && av.Sign() == 0; try++ {
 		tok = g.Intn(s.NTok[c] + 1)
-		bal = r.w.Balance(ch, r.tokens[c][tok], r.w.Users[u].Addr)
-	}
-	// how much can be sent: bound tokens are burned in local units (amount * 10^scale) and limited by bindings.amount
-	avail := new(big.Int).Set(bal)
-	if tok > 0 && dst < s.NChains && dst != c {
-		if b := r.w.Bindings(ch, r.tokens[c][tok], r.chainName(dst)); b.Bound {
-			if b.Amount.Cmp(avail) < 0 {
-				avail.Set(b.Amount)
-			}
-			avail.Div(avail, pow10(b.Scale))
-		}
+		av = avail(c, u, tok, dst)
 	}
 	amt := big.NewInt(0)
 	switch y := g.Intn(20); {
 	case y == 0:
-		amt.Add(avail, big.NewInt(int64(1+g.Intn(5)))) // too much
+		amt.Add(av, big.NewInt(int64(1+g.Intn(5)))) // too much
 	case y == 1:
-		amt.Set(avail) // everything
+		amt.Set(av) // everything
 	case y == 2:
 		// zero: pure call
 	default:
-		if avail.Sign() > 0 {
-			lim := new(big.Int).Div(avail, big.NewInt(3))
+		if av.Sign() > 0 {
+			lim := new(big.Int).Div(av, big.NewInt(3))
 			if lim.Sign() == 0 {
 				lim.SetInt64(1)
 			}
@@ -237,6 +257,5 @@ func (r *run) genOp(g *hlib.Rand, id int) Op {
 			op.Fee = fmt.Sprint(1 + g.U64()%lim.Uint64())
 		}
 	}
-	_ = dd
 	return op
 }
